@@ -50,15 +50,27 @@ fn secp() -> &'static Secp256k1<secp256k1::All> {
 
 /* ------------------------------------------------------------------ key material */
 
-pub const NKEYS: u32 = 12;
+pub const NKEYS: u32 = 18;
+/// derivation index at which wildcard keys are made definite
+const WILDCARD_INDEX: u32 = 7;
 
 struct KeyInfo {
     text: String,
+    /// the key expression after `into_single_descriptors` / `at_derivation_index` (= `text` unless
+    /// the key is a wildcard or multipath key)
+    derived_text: String,
     secret: SecretKey,
     public: PublicKey,
     /// the origin this harness EXPECTS to be recorded (constructed here, not read back)
     fp: Fingerprint,
     path: DerivationPath,
+}
+
+/// secret of the xpub-derived key `K<k>` (`m/48'/k'/0/(k+1)`)
+fn key_secret_of_xpub(master: &Xpriv, k: u32) -> SecretKey {
+    let path = vec![ChildNumber::from_hardened_idx(48).unwrap(), ChildNumber::from_hardened_idx(k).unwrap(),
+        ChildNumber::from_normal_idx(0).unwrap(), ChildNumber::from_normal_idx(k + 1).unwrap()];
+    master.derive_priv(secp(), &path).unwrap().private_key
 }
 
 fn key_table() -> &'static Vec<KeyInfo> {
@@ -74,7 +86,37 @@ fn key_table() -> &'static Vec<KeyInfo> {
                 let h = hash160::Hash::hash(&pk.to_bytes());
                 let mut fp = [0u8; 4];
                 fp.copy_from_slice(&h[0..4]);
-                return KeyInfo { text: pk.to_string(), secret: sk, public: pk, fp: Fingerprint::from(fp), path: DerivationPath::master() };
+                return KeyInfo { text: pk.to_string(), derived_text: pk.to_string(), secret: sk, public: pk, fp: Fingerprint::from(fp), path: DerivationPath::master() };
+            }
+            if k >= 15 {
+                // UNCOMPRESSED twins of K0..K2 (the same curve point in the other encoding), no origin
+                let sk = key_secret_of_xpub(&master, k - 15);
+                let pk = PublicKey::new_uncompressed(secp256k1::PublicKey::from_secret_key(secp(), &sk));
+                let h = hash160::Hash::hash(&pk.to_bytes());
+                let mut fp = [0u8; 4];
+                fp.copy_from_slice(&h[0..4]);
+                return KeyInfo { text: pk.to_string(), derived_text: pk.to_string(), secret: sk, public: pk, fp: Fingerprint::from(fp), path: DerivationPath::master() };
+            }
+            if k >= 12 {
+                // other extended-key shapes: K12 an xpub WITHOUT origin (fingerprint of the xpub itself,
+                // path = the steps below it), K13 a WILDCARD key made definite at an index, K14 a
+                // MULTIPATH wildcard key (second branch)
+                let acct_path = vec![ChildNumber::from_hardened_idx(48).unwrap(), ChildNumber::from_hardened_idx(k).unwrap()];
+                let acct = master.derive_priv(secp(), &acct_path).unwrap();
+                let xpub = Xpub::from_priv(secp(), &acct);
+                let branch = if k == 14 { 1 } else { 0 };
+                let last = if k == 12 { 13 } else { WILDCARD_INDEX };
+                let tail = vec![ChildNumber::from_normal_idx(branch).unwrap(), ChildNumber::from_normal_idx(last).unwrap()];
+                let sk = acct.derive_priv(secp(), &tail).unwrap().private_key;
+                let pk = PublicKey::new(secp256k1::PublicKey::from_secret_key(secp(), &sk));
+                let (text, derived_text, fp, path) = match k {
+                    12 => (format!("{}/0/13", xpub), format!("{}/0/13", xpub), xpub.fingerprint(), DerivationPath::from(tail.clone())),
+                    13 => (format!("[{}/48'/13']{}/0/*", mfp, xpub), format!("[{}/48'/13']{}/0/{}", mfp, xpub, WILDCARD_INDEX), mfp,
+                           DerivationPath::from([acct_path.clone(), tail.clone()].concat())),
+                    _ => (format!("[{}/48'/14']{}/<0;1>/*", mfp, xpub), format!("[{}/48'/14']{}/1/{}", mfp, xpub, WILDCARD_INDEX), mfp,
+                          DerivationPath::from([acct_path.clone(), tail.clone()].concat())),
+                };
+                return KeyInfo { text, derived_text, secret: sk, public: pk, fp, path };
             }
             if k >= 10 {
                 // UNCOMPRESSED single keys with an explicit origin `[deadbeef/1'/k]04…` (legal in
@@ -82,7 +124,7 @@ fn key_table() -> &'static Vec<KeyInfo> {
                 let sk = ast::secret(60 + k);
                 let pk = PublicKey::new_uncompressed(secp256k1::PublicKey::from_secret_key(secp(), &sk));
                 let path = vec![ChildNumber::from_hardened_idx(1).unwrap(), ChildNumber::from_normal_idx(k).unwrap()];
-                return KeyInfo { text: format!("[deadbeef/1'/{}]{}", k, pk), secret: sk, public: pk,
+                return KeyInfo { text: format!("[deadbeef/1'/{}]{}", k, pk), derived_text: format!("[deadbeef/1'/{}]{}", k, pk), secret: sk, public: pk,
                     fp: Fingerprint::from([0xde, 0xad, 0xbe, 0xef]), path: DerivationPath::from(path) };
             }
             let acct_path = vec![ChildNumber::from_hardened_idx(48).unwrap(), ChildNumber::from_hardened_idx(k).unwrap()];
@@ -96,6 +138,7 @@ fn key_table() -> &'static Vec<KeyInfo> {
             full.extend(tail);
             KeyInfo {
                 text: format!("[{}/48'/{}']{}/0/{}", mfp, k, xpub, k + 1),
+                derived_text: format!("[{}/48'/{}']{}/0/{}", mfp, k, xpub, k + 1),
                 secret: sk, public: pk, fp: mfp, path: DerivationPath::from(full),
             }
         }).collect()
@@ -181,9 +224,9 @@ fn expand(tmpl: &str) -> String {
 fn unexpand(text: &str) -> String {
     let mut s = text.to_string();
     if let Some(p) = s.find('#') { s.truncate(p); }
-    for k in 0..NKEYS { s = s.replace(&key(k).text, &format!("K{}", k)); }
+    for k in 0..NKEYS { s = s.replace(&key(k).text, &format!("K{}", k)); s = s.replace(&key(k).derived_text, &format!("K{}", k)); }
     // the printer uses `h` for hardened steps
-    for k in 0..NKEYS { s = s.replace(&key(k).text.replace('\'', "h"), &format!("K{}", k)); }
+    for k in 0..NKEYS { s = s.replace(&key(k).text.replace('\'', "h"), &format!("K{}", k)); s = s.replace(&key(k).derived_text.replace('\'', "h"), &format!("K{}", k)); }
     for j in 0..NHASHES { s = s.replace(&hash_text(j), &format!("H{}", j)); }
     s
 }
@@ -242,7 +285,13 @@ fn spec_from_desc(desc: Descriptor<DefiniteDescriptorKey>, sane: bool) -> Option
 
 fn spec_from_tmpl(tmpl: &str) -> Option<Spec> {
     let text = expand(tmpl);
-    match Descriptor::<DefiniteDescriptorKey>::from_str(&text) {
+    // general route: a descriptor over DescriptorPublicKey (wildcards, multipath keys), split into its
+    // single-path descriptors (the LAST branch is taken) and made definite at WILDCARD_INDEX
+    let r = miniscript::Descriptor::<miniscript::DescriptorPublicKey>::from_str(&text).map_err(|e| e.to_string())
+        .and_then(|d| d.into_single_descriptors().map_err(|e| e.to_string()))
+        .and_then(|v| v.last().cloned().ok_or("no single descriptor".to_string()))
+        .and_then(|d| d.at_derivation_index(WILDCARD_INDEX).map_err(|e| e.to_string()));
+    match r {
         Ok(d) => spec_from_desc(d, true),
         Err(e) => { if std::env::var("C14_DEBUG").is_ok() { eprintln!("rejected {}: {}", tmpl, e); } None }
     }
@@ -264,8 +313,10 @@ impl Translator<PublicKey> for ToDefinite {
     type TargetPk = DefiniteDescriptorKey;
     type Error = ();
     fn pk(&mut self, pk: &PublicKey) -> Result<DefiniteDescriptorKey, ()> {
-        let id = crate::msops::key_id_full(pk).ok_or(())? % 100;
-        if id >= 9 { return Err(()); }
+        let id = crate::msops::key_id_full(pk).ok_or(())?;
+        // uncompressed atoms 100..102 -> the uncompressed twins of K0..K2 (same point, other encoding)
+        let id = if (100..103).contains(&id) { 15 + (id - 100) } else if id >= 100 { return Err(()) } else { id % 100 };
+        if (10..15).contains(&id) { return Err(()); }
         DefiniteDescriptorKey::from_str(&key(id).text).map_err(|_| ())
     }
     fn sha256(&mut self, h: &sha256::Hash) -> Result<sha256::Hash, ()> { Ok(*h) }
@@ -310,7 +361,17 @@ pub fn build_pool(rng: &mut Rng, thorough: bool) -> (Vec<Spec>, Vec<Spec>) {
               // bare scripts that are not P2PK
               // (bare standardness admits only pk, pkh and multi up to n = 3)
               "multi(1,K0,K1)", "multi(2,K0,K1,K2)", "multi(1,K10,K0)", "sortedmulti(2,K11,K1,K2)", "multi(1,K3)",
-              "multi(3,K0,K1,K2)", "multi(2,K10,K11)", "sortedmulti(1,K1,K0)", "multi(1,K11,K10,K4)", "multi(2,K5,K6)"] {
+              "multi(3,K0,K1,K2)", "multi(2,K10,K11)", "sortedmulti(1,K1,K0)", "multi(1,K11,K10,K4)", "multi(2,K5,K6)",
+              // extended-key shapes: no origin (K12), wildcard made definite (K13), multipath (K14)
+              "wpkh(K12)", "pkh(K14)", "sh(wpkh(K13))", "wsh(multi(2,K12,K13,K14))", "sh(wsh(pk(K13)))", "tr(K13,pk(K14))",
+              "tr(K12,{pk(K13),pkh(K14)})", "sh(multi(1,K12,K14))", "multi(1,K13,K14)",
+              // one curve point in both encodings (K15 = uncompressed K0)
+              "sh(or_d(pk(K15),pk(K0)))", "sh(multi(1,K15,K0,K16))", "pkh(K15)", "multi(1,K0,K15)",
+              // time-based and height-based relative locks (sequence variants are drawn per case)
+              "wsh(or_d(pk(K0),and_v(v:pk(K1),older(4194305))))", "sh(wsh(or_d(pk(K0),and_v(v:pk(K1),older(4194305)))))",
+              "sh(or_d(pk(K0),and_v(v:pk(K1),older(4194305))))", "tr(K0,and_v(v:pk(K1),older(4194305)))",
+              "wsh(and_v(v:pk(K0),older(10)))", "sh(and_v(v:pk(K0),older(10)))", "tr(K0,and_v(v:pk(K1),older(10)))",
+              "wsh(and_v(v:pk(K0),older(65535)))", "wsh(and_v(v:pk(K0),older(4259839)))"] {
         if let Some(s) = spec_from_tmpl(t) { pool.push(s); }
     }
     for m in MS_POOL {
@@ -353,8 +414,37 @@ pub fn build_pool(rng: &mut Rng, thorough: bool) -> (Vec<Spec>, Vec<Spec>) {
             }
         }
     }
+    // the shared dimension corpus (designated fragments: every hash kind in several positions, both
+    // lock units, two same-unit locks on one path, thresholds with lock children, wide multisig,
+    // uncompressed keys / one point in both encodings in legacy contexts), in EVERY tier
+    for (ctx, wraps) in [(CtxK::Segwitv0, vec![Wrap::Wsh, Wrap::ShWsh]), (CtxK::Legacy, vec![Wrap::Sh]), (CtxK::Bare, vec![Wrap::Bare])] {
+        for node in ast::dimension_corpus(ctx) {
+            for w in &wraps {
+                if let Some(d) = desc::build_desc(*w, &node, 0) {
+                    if let Ok(dd) = d.translate_pk(&mut ToDefinite) {
+                        if !is_sane(&dd) { continue; }
+                        if let Some(s) = spec_from_desc(dd, true) { pool.push(s); }
+                    }
+                }
+            }
+        }
+    }
+    {
+        let corpus = ast::dimension_corpus(CtxK::Tap);
+        for (i, node) in corpus.iter().enumerate() {
+            let leaves = if i % 3 == 0 { vec![node.clone(), corpus[(i + 5) % corpus.len()].clone()] } else { vec![node.clone()] };
+            if let Some(d) = desc::build_tr(3, &leaves) {
+                if let Ok(dd) = d.translate_pk(&mut ToDefinite) {
+                    if !is_sane(&dd) { continue; }
+                    if let Some(s) = spec_from_desc(dd, true) { pool.push(s); }
+                }
+            }
+        }
+    }
     let mut seen = BTreeSet::new();
-    pool.retain(|s| s.sane && seen.insert(s.tmpl.clone()));
+    // raw key hashes of the corpus commit to the shared atom keys, for which this harness holds no
+    // signing key under its own key table: the raw-pkh route is covered by `judge_rawpkh` / the `o` op
+    pool.retain(|s| s.sane && !s.tmpl.contains("expr_raw_pkh") && seen.insert(s.tmpl.clone()));
     let mall: Vec<Spec> = MALL_POOL.iter().filter_map(|m| spec_insane_wsh(m)).collect();
     (pool, mall)
 }
@@ -451,8 +541,23 @@ fn tap_digest_typed(tx: &Transaction, idx: usize, prevouts: &[TxOut], leaf_scrip
     }
 }
 
-fn build_case(specs: Vec<Spec>, rng: &mut Rng) -> Case {
+/// fixed choices for a deterministic case (None = seeded random choice)
+#[derive(Clone, Default)]
+struct CaseOpts { version: Option<i32>, seqs: Vec<Option<u32>> }
+
+fn build_case(specs: Vec<Spec>, rng: &mut Rng) -> Case { build_case_with(specs, rng, &CaseOpts::default()) }
+
+/// nSequence variants around a relative lock `o`: exact, bits above the 16-bit mask set, the other
+/// unit (type flag flipped), one short, disable flag set, final
+fn seq_variants(o: u32) -> Vec<u32> {
+    vec![o, o, o, o, o, o | (1 << 16), o | (1 << 20), (o ^ 0x0040_0000) + 10, o & 0xffff, o.saturating_sub(1), o | (1 << 31), 0xffff_ffff, (o & 0x0040_0000) | 0xffff]
+}
+
+fn build_case_with(specs: Vec<Spec>, rng: &mut Rng, opts: &CaseOpts) -> Case {
     let n = specs.len();
+    let any_older = specs.iter().any(|s| !s.olders.is_empty());
+    // version 1 transactions: BIP68 relative locks are not enforced, older() can never be satisfied
+    let version = opts.version.unwrap_or_else(|| if rng.below(if any_older { 7 } else { 25 }) == 0 { 1 } else { 2 });
     // lock time: the largest height-based `after` among the inputs (so that they can be met
     // together), sometimes one less / zero to get failing finalizations
     let mut lt = specs.iter().flat_map(|s| s.afters.iter().cloned()).filter(|a| *a < 500_000_000).max().unwrap_or(0);
@@ -476,8 +581,13 @@ fn build_case(specs: Vec<Spec>, rng: &mut Rng) -> Case {
             input: vec![TxIn { previous_output: OutPoint::null(), script_sig: ScriptBuf::from_bytes(vec![0x01, i as u8 + 1]), sequence: Sequence::MAX, witness: Witness::new() }],
             output: outs,
         };
-        let mut sq = spec.olders.iter().cloned().filter(|o| o & 0x400000 == 0).max().unwrap_or(0xffff_fffd);
-        match rng.below(10) { 0 => { if sq < 0xffff { sq = sq.saturating_sub(1) } }, 1 => sq = 0xffff_ffff, _ => {} }
+        let sq = match opts.seqs.get(i).cloned().flatten() {
+            Some(s) => s,
+            None => match spec.olders.iter().cloned().max_by_key(|o| (o & 0xffff, *o)) {
+                Some(o) => { let v = seq_variants(o); v[rng.below(v.len())] }
+                None => if rng.below(10) == 0 { 0xffff_ffff } else { 0xffff_fffd },
+            },
+        };
         txins.push(TxIn {
             previous_output: OutPoint { txid: prev_tx.compute_txid(), vout: vout as u32 },
             script_sig: ScriptBuf::new(), sequence: Sequence::from_consensus(sq), witness: Witness::new(),
@@ -488,7 +598,7 @@ fn build_case(specs: Vec<Spec>, rng: &mut Rng) -> Case {
     }
     // one output paying to the first input's descriptor (update_output_with_descriptor), one plain
     let tx = Transaction {
-        version: transaction::Version::TWO,
+        version: transaction::Version(version),
         lock_time: absolute::LockTime::from_consensus(lt),
         input: txins,
         output: vec![],
@@ -531,7 +641,7 @@ fn build_case(specs: Vec<Spec>, rng: &mut Rng) -> Case {
     }
     let mut psbt0 = Psbt::from_unsigned_tx(tx).unwrap();
     for i in 0..n { set_utxo(&mut psbt0, &inputs[i], i); }
-    let label = format!("lt={};{}", lt, inputs.iter().enumerate().map(|(i, c)|
+    let label = format!("{}lt={};{}", if version == 2 { String::new() } else { format!("v={};", version) }, lt, inputs.iter().enumerate().map(|(i, c)|
         format!("{}@{}@{}", c.spec.tmpl, c.mode.name(), psbt0.unsigned_tx.input[i].sequence.to_consensus_u32())).collect::<Vec<_>>().join(";"));
     Case { inputs, psbt0, label, out_desc }
 }
@@ -547,6 +657,7 @@ fn set_utxo(p: &mut Psbt, c: &InpCase, i: usize) {
 enum Op {
     Update(usize), Sig(usize, u32, bool), KeySig(usize, bool), Pre(usize, usize, bool),
     Corrupt(usize), Drop(usize), Restore(usize), Garbage(usize), ShortPrev(usize), SighashField(usize), DropOrigins(usize),
+    OtherTxid(usize), Disagree(usize), WitnessOnly(usize), Stray(usize), LeafVersion(usize),
     Fin, FinMall, FinInp(usize), FinInpMall(usize), Extract, OldFin, OldFinMall,
 }
 impl Op {
@@ -559,6 +670,8 @@ impl Op {
             Op::Corrupt(i) => format!("x{}", i), Op::Drop(i) => format!("d{}", i),
             Op::Restore(i) => format!("r{}", i), Op::Garbage(i) => format!("g{}", i), Op::ShortPrev(i) => format!("v{}", i),
             Op::SighashField(i) => format!("h{}", i), Op::DropOrigins(i) => format!("o{}", i),
+            Op::OtherTxid(i) => format!("k{}", i), Op::Disagree(i) => format!("e{}", i), Op::WitnessOnly(i) => format!("w{}", i),
+            Op::Stray(i) => format!("z{}", i), Op::LeafVersion(i) => format!("l{}", i),
             Op::Fin => "F".into(), Op::FinMall => "M".into(),
             Op::FinInp(i) => format!("f{}", i), Op::FinInpMall(i) => format!("m{}", i),
             Op::Extract => "X".into(), Op::OldFin => "L".into(), Op::OldFinMall => "N".into(),
@@ -663,6 +776,43 @@ fn apply(case: &Case, p: &mut Psbt, op: &Op) -> String {
             }
             Op::Drop(i) => { p.inputs[*i].witness_utxo = None; p.inputs[*i].non_witness_utxo = None; "ok".into() }
             Op::Restore(i) => { set_utxo(p, &case.inputs[*i], *i); "ok".into() }
+            Op::OtherTxid(i) => {
+                // the previous transaction with a changed lock time: ANOTHER txid, same output at vout
+                let mut prev = case.inputs[*i].prev_tx.clone();
+                prev.lock_time = absolute::LockTime::from_consensus(77);
+                p.inputs[*i].witness_utxo = None;
+                p.inputs[*i].non_witness_utxo = Some(prev);
+                "ok".into()
+            }
+            Op::Disagree(i) => {
+                // witness_utxo disagrees with non_witness_utxo.output[vout] (other amount)
+                let mut u = case.inputs[*i].utxo.clone();
+                u.value = u.value + Amount::from_sat(1);
+                p.inputs[*i].witness_utxo = Some(u);
+                p.inputs[*i].non_witness_utxo = Some(case.inputs[*i].prev_tx.clone());
+                "ok".into()
+            }
+            Op::WitnessOnly(i) => {
+                p.inputs[*i].witness_utxo = Some(case.inputs[*i].utxo.clone());
+                p.inputs[*i].non_witness_utxo = None;
+                "ok".into()
+            }
+            Op::Stray(i) => {
+                // the script field the output type must NOT carry / a wrong redeem script on sh-wsh
+                let wrong = ScriptBuf::from_bytes(vec![0x51, 0x75, 0x51, *i as u8 + 0x52]);
+                match case.inputs[*i].spec.kind {
+                    Kind::Wsh | Kind::ShWsh => p.inputs[*i].redeem_script = Some(wrong),
+                    Kind::Sh => p.inputs[*i].witness_script = Some(wrong),
+                    _ => {}
+                }
+                "ok".into()
+            }
+            Op::LeafVersion(i) => {
+                // every tap_scripts entry gets a leaf version the finalizer cannot satisfy
+                let items: Vec<(ControlBlock, ScriptBuf)> = p.inputs[*i].tap_scripts.iter().map(|(cb, (s, _))| (cb.clone(), s.clone())).collect();
+                for (cb, s) in items { p.inputs[*i].tap_scripts.insert(cb, (s, LeafVersion::from_consensus(0xc2).unwrap())); }
+                "ok".into()
+            }
             Op::SighashField(i) => {
                 // toggle the input's sighash_type field between absent and SIGHASH_SINGLE (all
                 // signatures of the histories are SIGHASH_ALL / DEFAULT: a contradiction)
@@ -705,7 +855,22 @@ fn apply(case: &Case, p: &mut Psbt, op: &Op) -> String {
         }
     }));
     let _ = n;
-    r.unwrap_or_else(|_| "panic".into())
+    r.unwrap_or_else(|_| { PANICS.with(|v| v.borrow_mut().push(op.tok())); "panic".into() })
+}
+
+thread_local! { static PANICS: std::cell::RefCell<Vec<String>> = std::cell::RefCell::new(vec![]); }
+
+/// run one judge; a panic of any library call inside it (caught by `apply`, or escaping it) becomes a
+/// `J nopanic` line of its own - the no-panic sweep of C11 keeps only those lines
+fn guarded<F: FnOnce(&mut Out)>(out: &mut Out, name: &str, id: &str, f: F) {
+    PANICS.with(|v| v.borrow_mut().clear());
+    let escaped = catch_unwind(AssertUnwindSafe(|| f(out))).is_err();
+    let inner: Vec<String> = PANICS.with(|v| v.borrow_mut().drain(..).collect());
+    if escaped || !inner.is_empty() {
+        out.line(&format!("J nopanic psbt {} {} {} PANIC", name, id, if inner.is_empty() { "escaped".to_string() } else { inner.join(",") }), "ok");
+    } else {
+        out.count(&format!("nopanic judge {}", name));
+    }
 }
 
 fn is_final(inp: &psbt::Input) -> bool { inp.final_script_sig.is_some() || inp.final_script_witness.is_some() }
@@ -739,11 +904,35 @@ fn abs_state(p: &Psbt) -> String {
 
 /// An independent `Satisfier` over the CONTENTS of one PSBT input (written against
 /// rust-bitcoin only; `PsbtInputSatisfier` of the psbt module is code under test).
-struct FieldSat<'a> { tx: &'a Transaction, idx: usize, inp: &'a psbt::Input }
+struct FieldSat<'a> {
+    tx: &'a Transaction, idx: usize, inp: &'a psbt::Input,
+    /// keys a raw key hash can be resolved to WITHOUT a signature: what the PSBT records as key
+    /// origins (`bip32_derivation` of all inputs - as compressed keys, the map is keyed by curve
+    /// point - and `tap_key_origins` of all inputs)
+    known: Vec<PublicKey>,
+    known_x: Vec<XOnlyPublicKey>,
+}
+fn field_sat<'a>(p: &'a Psbt, i: usize) -> FieldSat<'a> {
+    FieldSat { tx: &p.unsigned_tx, idx: i, inp: &p.inputs[i],
+        known: p.inputs.iter().flat_map(|inp| inp.bip32_derivation.keys().map(|k| PublicKey::new(*k))).collect(),
+        known_x: p.inputs.iter().flat_map(|inp| inp.tap_key_origins.keys().cloned()).collect() }
+}
 
 impl<'a, Pk: MiniscriptKey + ToPublicKey> Satisfier<Pk> for FieldSat<'a> {
     fn lookup_ecdsa_sig(&self, pk: &Pk) -> Option<ecdsa::Signature> { self.inp.partial_sigs.get(&pk.to_public_key()).copied() }
     fn lookup_tap_key_spend_sig(&self, _: &Pk) -> Option<taproot::Signature> { None }
+    fn lookup_raw_pkh_pk(&self, h: &hash160::Hash) -> Option<PublicKey> {
+        self.known.iter().find(|k| hash160::Hash::hash(&k.to_bytes()) == *h).cloned()
+    }
+    fn lookup_raw_pkh_x_only_pk(&self, h: &hash160::Hash) -> Option<XOnlyPublicKey> {
+        self.known_x.iter().find(|k| hash160::Hash::hash(&k.serialize()) == *h).cloned()
+    }
+    fn lookup_raw_pkh_ecdsa_sig(&self, h: &hash160::Hash) -> Option<(PublicKey, ecdsa::Signature)> {
+        self.inp.partial_sigs.iter().find(|(k, _)| hash160::Hash::hash(&k.to_bytes()) == *h).map(|(k, s)| (*k, *s))
+    }
+    fn lookup_raw_pkh_tap_leaf_script_sig(&self, h: &(hash160::Hash, TapLeafHash)) -> Option<(XOnlyPublicKey, taproot::Signature)> {
+        self.inp.tap_script_sigs.iter().find(|((k, lh), _)| hash160::Hash::hash(&k.serialize()) == h.0 && *lh == h.1).map(|((k, _), s)| (*k, *s))
+    }
     fn lookup_tap_leaf_script_sig(&self, pk: &Pk, lh: &TapLeafHash) -> Option<taproot::Signature> {
         self.inp.tap_script_sigs.get(&(pk.to_x_only_pubkey(), *lh)).copied()
     }
@@ -776,15 +965,19 @@ fn wit_size(w: &[Vec<u8>]) -> usize { w.iter().map(|e| varint_len(e.len()) + e.l
 /// Non-taproot: the true descriptor's satisfier; taproot: the script-path part only (smallest
 /// witness over the leaves recorded in `tap_scripts`, ties to the larger control block).
 fn sat_oracle(case: &Case, p: &Psbt, i: usize, mall: bool) -> Option<(ScriptBuf, Witness)> {
+    use miniscript::{BareCtx, Legacy, Miniscript, Segwitv0, Tap};
     let c = &case.inputs[i];
-    let sat = FieldSat { tx: &p.unsigned_tx, idx: i, inp: &p.inputs[i] };
+    let sat = field_sat(p, i);
+    // The scripts are DECODED (pkh() fragments become raw key hashes), as any finalizer has to: which
+    // key a hash stands for is known only through the PSBT's own fields (`FieldSat::known*`, the
+    // signature maps).  The decoder and the descriptor satisfier are outside the psbt module.
     if let Descriptor::Tr(tr) = &c.spec.derived {
         let info = tr.spend_info();
         let mut best: Option<(usize, ControlBlock, Vec<Vec<u8>>)> = None;
         for l in info.leaves() {
             let cb = l.control_block().clone();
             match p.inputs[i].tap_scripts.get(&cb) { Some((s, LeafVersion::TapScript)) if s.as_bytes() == l.script().as_bytes() => {}, _ => continue }
-            let ms = l.miniscript();
+            let ms = match Miniscript::<XOnlyPublicKey, Tap>::decode_consensus(l.script()) { Ok(m) => m, Err(_) => continue };
             let r = if mall { ms.satisfy_malleable(&sat) } else { ms.satisfy(&sat) };
             if let Ok(mut w) = r {
                 w.push(l.script().to_bytes());
@@ -796,15 +989,40 @@ fn sat_oracle(case: &Case, p: &Psbt, i: usize, mall: bool) -> Option<(ScriptBuf,
         }
         best.map(|(_, _, w)| (ScriptBuf::new(), Witness::from_slice(&w)))
     } else {
-        let r = if mall { c.spec.derived.get_satisfaction_mall(&sat) } else { c.spec.derived.get_satisfaction(&sat) };
+        let d: Descriptor<PublicKey> = match c.spec.kind {
+            Kind::Wsh => Descriptor::new_wsh(Miniscript::<PublicKey, Segwitv0>::decode_consensus(&c.spec.derived.explicit_script().ok()?).ok()?).ok()?,
+            Kind::ShWsh => Descriptor::new_sh_wsh(Miniscript::<PublicKey, Segwitv0>::decode_consensus(&c.spec.derived.explicit_script().ok()?).ok()?).ok()?,
+            Kind::Sh => Descriptor::new_sh(Miniscript::<PublicKey, Legacy>::decode_consensus(&c.spec.derived.explicit_script().ok()?).ok()?).ok()?,
+            Kind::Bare => Descriptor::new_bare(Miniscript::<PublicKey, BareCtx>::decode_consensus(&c.utxo.script_pubkey).ok()?).ok()?,
+            _ => c.spec.derived.clone(),
+        };
+        let r = if mall { d.get_satisfaction_mall(&sat) } else { d.get_satisfaction(&sat) };
         r.ok().map(|(w, s)| (s, Witness::from_slice(&w)))
+    }
+}
+
+/// the previous outputs as a finalizer sees them: `witness_utxo` if present, else output `vout` of
+/// `non_witness_utxo` (independent of the code under test; `None` if some input has neither)
+fn psbt_prevouts(p: &Psbt) -> Option<Vec<TxOut>> {
+    p.inputs.iter().enumerate().map(|(i, inp)| match (&inp.witness_utxo, &inp.non_witness_utxo) {
+        (Some(u), _) => Some(u.clone()),
+        (None, Some(t)) => t.output.get(p.unsigned_tx.input.get(i)?.previous_output.vout as usize).cloned(),
+        _ => None,
+    }).collect()
+}
+/// per input: `o` the output really being spent, `x` anything else (a disagreeing witness_utxo)
+fn utxo_view_tok(case: &Case, p: &Psbt) -> String {
+    match psbt_prevouts(p) {
+        None => "?".into(),
+        Some(v) => v.iter().enumerate().map(|(i, u)| if *u == case.inputs[i].utxo { 'o' } else { 'x' }).collect(),
     }
 }
 
 /// the interpreter parameter on one point (the interpreter module directly, no psbt code)
 fn interp_oracle(case: &Case, p: &Psbt, i: usize, ss: &ScriptBuf, w: &Witness) -> bool {
-    let utxos: Vec<TxOut> = case.inputs.iter().map(|c| c.utxo.clone()).collect();
-    let spk = &case.inputs[i].utxo.script_pubkey;
+    let utxos: Vec<TxOut> = match psbt_prevouts(p) { Some(v) => v, None => return false };
+    let spk = &utxos[i].script_pubkey;
+    let _ = case;
     let tx = &p.unsigned_tx;
     let r = catch_unwind(AssertUnwindSafe(|| {
         match Interpreter::from_txdata(spk, ss, w, tx.input[i].sequence, tx.lock_time) {
@@ -851,6 +1069,11 @@ fn field_sig(case: &Case, p: &Psbt, i: usize) -> String {
         if let Some(pre) = got { t.push(format!("{}{}", if pre[..] == ast::preimage(h)[..] { "p" } else { "q" }, j)); }
     }
     if c.spec.kind == Kind::Tr && !inp.tap_scripts.is_empty() { t.push("u".into()); }
+    if inp.tap_scripts.values().any(|(_, v)| *v != LeafVersion::TapScript) { t.push("L".into()); }
+    // which inputs record key origins (a raw key hash can be resolved through them)
+    for (j, other) in p.inputs.iter().enumerate() {
+        if !other.bip32_derivation.is_empty() || !other.tap_key_origins.is_empty() { t.push(format!("O{}", j)); }
+    }
     if t.is_empty() { "-".into() } else { t.join("+") }
 }
 
@@ -879,7 +1102,7 @@ fn setup_tok(case: &Case) -> String {
 }
 
 #[derive(Default)]
-struct Oracle { entries: BTreeMap<String, String> }
+struct Oracle { entries: BTreeMap<String, String>, observed: BTreeSet<String> }
 impl Oracle {
     fn tok(&self) -> String {
         if self.entries.is_empty() { "-".into() } else { self.entries.iter().map(|(k, v)| format!("{}={}", k, v)).collect::<Vec<_>>().join(";") }
@@ -901,11 +1124,29 @@ impl Oracle {
             Op::FinInpMall(i) if *i < n => vec![(*i, true)],
             _ => vec![],
         };
+        let is_loop = matches!(op, Op::Fin | Op::FinMall | Op::OldFin | Op::OldFinMall);
         for (i, mall) in targets {
             if is_final(&p.inputs[i]) { continue; }
+            // inside a loop over all inputs the earlier inputs may have been finalized by the time
+            // input i is reached (their origin maps are then gone, and with them keys a raw key hash
+            // can be resolved to): supply the parameter for every such state
+            let earlier: Vec<usize> = if is_loop { (0..i).filter(|j| !is_final(&p.inputs[*j])).collect() } else { vec![] };
+            for mask in 0..(1usize << earlier.len()) {
+            let mut pv = p.clone();
+            for (b, j) in earlier.iter().enumerate() { if mask >> b & 1 == 1 { pv.inputs[*j].bip32_derivation.clear(); pv.inputs[*j].tap_key_origins.clear(); } }
+            let p = &pv;
             let fs = field_sig(case, p, i);
             let key_ = format!("S{}.{}.{}", i, mall as u8, fs);
             let r = sat_oracle(case, p, i, mall);
+            if r.is_none() && case.inputs[i].spec.kind != Kind::Tr && mask == 0 {
+                // OBSERVATION: the descriptor itself (which knows its keys) could be satisfied with these
+                // signatures, but a finalizer cannot: a pkh() key that has to be pushed WITHOUT a signature
+                // (dissatisfied branch) is only known through bip32_derivation, i.e. as a compressed key
+                let direct = { let sat = field_sat(p, i); if mall { case.inputs[i].spec.derived.get_satisfaction_mall(&sat) } else { case.inputs[i].spec.derived.get_satisfaction(&sat) } };
+                if direct.is_ok() && !p.inputs[i].bip32_derivation.is_empty() && p.inputs[i].witness_script.is_some() | p.inputs[i].redeem_script.is_some() | (case.inputs[i].spec.kind == Kind::Bare) {
+                    self.observed.insert(format!("{}", case.inputs[i].spec.tmpl));
+                }
+            }
             let mut cands: Vec<(ScriptBuf, Witness)> = vec![];
             match &r {
                 None => { self.entries.insert(key_, "none".into()); }
@@ -916,7 +1157,8 @@ impl Oracle {
             }
             for (ss, w) in cands {
                 let ok = interp_oracle(case, p, i, &ss, &w);
-                self.entries.insert(format!("I{}.{}/{}", i, ss_tok(&ss), wit_tok(&w)), if ok { "ok" } else { "err" }.into());
+                self.entries.insert(format!("I{}.{}.{}/{}", i, utxo_view_tok(case, p), ss_tok(&ss), wit_tok(&w)), if ok { "ok" } else { "err" }.into());
+            }
             }
         }
         if *op == Op::Extract {
@@ -925,7 +1167,7 @@ impl Oracle {
                 let ss = p.inputs[i].final_script_sig.clone().unwrap_or_default();
                 let w = p.inputs[i].final_script_witness.clone().unwrap_or_default();
                 let ok = interp_oracle(case, p, i, &ss, &w);
-                self.entries.insert(format!("I{}.{}/{}", i, ss_tok(&ss), wit_tok(&w)), if ok { "ok" } else { "err" }.into());
+                self.entries.insert(format!("I{}.{}.{}/{}", i, utxo_view_tok(case, p), ss_tok(&ss), wit_tok(&w)), if ok { "ok" } else { "err" }.into());
             }
         }
     }
@@ -947,6 +1189,17 @@ fn last_push(script: &ScriptBuf) -> Option<Vec<u8>> {
 fn register_valid_at(out: &mut Out, tx: &Transaction, idx: usize, prevouts: &[TxOut], script_sig: &ScriptBuf,
                      witness: &[Vec<u8>], candidates: &[(Vec<u8>, Vec<u8>)]) {
     out.line("D clearsigs", "ok");
+    for f in valid_facts(tx, idx, prevouts, script_sig, witness, candidates) { out.line(&format!("D {}", f), "ok"); }
+}
+
+/// the facts (`dsig <domain> <pk> <sig>`, `tapcommit <cb> <script> <output key>`) established with
+/// rust-bitcoin / libsecp256k1 from the PRODUCED data only
+fn valid_facts(tx: &Transaction, idx: usize, prevouts: &[TxOut], script_sig: &ScriptBuf,
+               witness: &[Vec<u8>], candidates: &[(Vec<u8>, Vec<u8>)]) -> Vec<String> {
+    struct Sink(Vec<String>);
+    impl Sink { fn line(&mut self, l: &str, _: &str) { self.0.push(l.trim_start_matches("D ").to_string()); } }
+    let mut sink = Sink(vec![]);
+    let out = &mut sink;
     let prevout = &prevouts[idx];
     let spk = &prevout.script_pubkey;
     let mut cache = SighashCache::new(tx);
@@ -1003,6 +1256,7 @@ fn register_valid_at(out: &mut Out, tx: &Transaction, idx: usize, prevouts: &[Tx
             }
         }
     }
+    sink.0
 }
 
 /// every (pubkey, signature) the harness ever made for input `i` (good and bad)
@@ -1028,6 +1282,15 @@ fn judge_spend_with(out: &mut Out, case: &Case, tx: &Transaction, i: usize, ss: 
     let wv: Vec<Vec<u8>> = w.to_vec();
     let mut cands = candidates(&case.inputs[i]);
     cands.extend(extra.iter().cloned());
+    if tx.version.0 != 2 {
+        // `J spend` judges with transaction version 2; any other version goes through `J spendv`, which
+        // carries the version and (inline) the validated signature facts
+        let facts = valid_facts(tx, i, &prevouts, ss, &wv, &cands);
+        let ft = if facts.is_empty() { "-".to_string() } else { facts.iter().map(|f| f.replace(' ', ":")).collect::<Vec<_>>().join(",") };
+        out.line(&format!("J spendv {} {} {} {} {} {} {} | {}", tx.version.0, tx.lock_time.to_consensus_u32(), tx.input[i].sequence.to_consensus_u32(),
+            hex(prevouts[i].script_pubkey.as_bytes()), hex(ss.as_bytes()), desc::wit_wire(&wv), ft, info), "ok");
+        return;
+    }
     register_valid_at(out, tx, i, &prevouts, ss, &wv, &cands);
     out.line(&format!("J spend {} {} {} {} {} | {}", tx.lock_time.to_consensus_u32(), tx.input[i].sequence.to_consensus_u32(),
         hex(prevouts[i].script_pubkey.as_bytes()), hex(ss.as_bytes()), desc::wit_wire(&wv), info), "ok");
@@ -1043,11 +1306,15 @@ fn run_history(out: &mut Out, case: &Case, hist: &[Op], judged: &mut BTreeSet<St
     let setup = setup_tok(case);
     let mut p = case.psbt0.clone();
     let mut oracle = Oracle::default();
+    let mut obs_done: BTreeSet<String> = BTreeSet::new();
     let mut sofar: Vec<Op> = vec![];
     for op in hist {
         let before = p.clone();
         oracle.prepare(case, &p, op);
         let res = apply(case, &mut p, op);
+        for t in oracle.observed.iter() {
+            if obs_done.insert(t.clone()) { out.count(&format!("observation: satisfiable by the descriptor but not from the PSBT's fields: {}", if t.contains("or_i(") || t.contains("ln:") || t.contains("l:") { "legacy script with or_i is refused by the decoder" } else { "a pkh() key to be pushed without signature is known only as a compressed key (bip32_derivation)" })); }
+        }
         sofar.push(op.clone());
         let h = hist_tok(&sofar);
         out.line(&format!("C psbtstep {} {} {}", setup, h, oracle.tok()), &format!("{} {}", res, abs_state(&p)));
@@ -1055,6 +1322,32 @@ fn run_history(out: &mut Out, case: &Case, hist: &[Op], judged: &mut BTreeSet<St
         let id = format!("{} {}", case.label, h);
         // no operation of any history may panic (F8 / F8b are repaired; `v` = short previous tx)
         if res == "panic" { out.line(&format!("J nopanic psbt history {} PANIC", id), "ok"); }
+        if matches!(op, Op::Update(_)) {
+            // a refused update leaves the whole PSBT as it was; an accepted one touches only its input
+            let bad = if res.starts_with("err") { if p.serialize() != before.serialize() { Some("refused-update-changed-psbt".to_string()) } else { None } }
+                      else { (0..p.inputs.len()).find(|j| Op::Update(*j) != *op && p.inputs[*j] != before.inputs[*j]).map(|j| format!("input{}-changed", j)) };
+            verdict(out, "update-atomic", &id, bad);
+        }
+        if matches!(op, Op::Fin | Op::FinMall | Op::FinInp(_) | Op::FinInpMall(_)) {
+            // the by-value wrappers (finalize / finalize_mall / finalize_inp / finalize_inp_mall) return
+            // the same result class and the same PSBT bytes as the `_mut` forms
+            let byval = catch_unwind(AssertUnwindSafe(|| -> (String, Psbt) {
+                let q = before.clone();
+                let errs = |es: &Vec<miniscript::psbt::Error>| format!("err:{}", es.iter().map(err_class).collect::<Vec<_>>().join("+"));
+                match op {
+                    Op::Fin => match q.finalize(secp()) { Ok(x) => ("ok".into(), x), Err((x, es)) => (errs(&es), x) },
+                    Op::FinMall => match q.finalize_mall(secp()) { Ok(x) => ("ok".into(), x), Err((x, es)) => (errs(&es), x) },
+                    Op::FinInp(j) => match q.finalize_inp(secp(), *j) { Ok(x) => ("ok".into(), x), Err((x, e)) => (format!("err:{}", err_class(&e)), x) },
+                    Op::FinInpMall(j) => match q.finalize_inp_mall(secp(), *j) { Ok(x) => ("ok".into(), x), Err((x, e)) => (format!("err:{}", err_class(&e)), x) },
+                    _ => unreachable!(),
+                }
+            }));
+            let bad = match byval {
+                Err(_) => if res == "panic" { None } else { Some("by-value-form-panics".to_string()) },
+                Ok((r2, q)) => if r2 != res { Some(format!("by-value-{}-mut-{}", r2, res)) } else if q.serialize() != p.serialize() { Some("bytes-differ".into()) } else { None },
+            };
+            verdict(out, "byvalue-agrees", &id, bad);
+        }
         if op.is_finalize() || *op == Op::Extract {
             // final-untouched
             let mut bad = None;
@@ -1164,7 +1457,7 @@ fn random_history(case: &Case, rng: &mut Rng) -> Vec<Op> {
         } else if r < 74 { Op::Extract }
         else {
             let c = &case.inputs[i];
-            match rng.below(12) {
+            match rng.below(18) {
                 0 => Op::Update(i),
                 1 | 2 => Op::Sig(i, if c.spec.keys.is_empty() { 0 } else { *rng.pick(&c.spec.keys) }, false),
                 3 => Op::Sig(i, rng.below(NKEYS as usize) as u32, true),
@@ -1174,7 +1467,8 @@ fn random_history(case: &Case, rng: &mut Rng) -> Vec<Op> {
                 7 => Op::Corrupt(i),
                 8 => Op::Drop(i),
                 9 => Op::Restore(i),
-                10 => match rng.below(6) { 0 | 1 => Op::ShortPrev(i), 2 => Op::SighashField(i), 3 => Op::DropOrigins(i), _ => Op::Garbage(i) },
+                10..=16 => match rng.below(12) { 0 | 1 => Op::ShortPrev(i), 2 => Op::SighashField(i), 3 | 4 => Op::DropOrigins(i), 5 => Op::OtherTxid(i),
+                    6 => Op::Disagree(i), 7 => Op::WitnessOnly(i), 8 | 9 => Op::Stray(i), 10 => Op::LeafVersion(i), _ => Op::Garbage(i) },
                 _ => { let v = progress_ops(case, i); v[rng.below(v.len())].clone() }
             }
         };
@@ -1233,9 +1527,15 @@ fn judge_update(out: &mut Out, case: &Case) {
             if matches!(c.spec.kind, Kind::Wsh | Kind::Pk | Kind::Pkh | Kind::Wpkh | Kind::Bare) && inp.redeem_script.is_some() { bad = Some("unexpected-redeem_script".into()); }
             if matches!(c.spec.kind, Kind::Sh | Kind::ShWpkh | Kind::Pk | Kind::Pkh | Kind::Wpkh | Kind::Bare) && inp.witness_script.is_some() { bad = Some("unexpected-witness_script".into()); }
             if c.spec.kind != Kind::Tr {
-                if inp.bip32_derivation.len() != c.spec.keys.len() { bad = Some("bip32-count".into()); }
+                // `bip32_derivation` is keyed by the curve point (rust-bitcoin: secp256k1::PublicKey): a
+                // descriptor holding one point in both encodings has ONE entry for it, carrying the
+                // origin of one of the two keys
+                let points: BTreeSet<secp256k1::PublicKey> = c.spec.keys.iter().map(|k| key(*k).public.inner).collect();
+                if inp.bip32_derivation.len() != points.len() { bad = Some("bip32-count".into()); }
+                if points.len() != c.spec.keys.len() { out.count("observation: one curve point in both encodings shares one bip32_derivation entry"); }
                 for k in &c.spec.keys {
-                    match inp.bip32_derivation.get(&key(*k).public.inner) { Some((fp, path)) if *fp == key(*k).fp && *path == key(*k).path => {}, _ => bad = Some(format!("origin-K{}", k)) }
+                    let cands: Vec<&KeyInfo> = c.spec.keys.iter().map(|j| key(*j)).filter(|j| j.public.inner == key(*k).public.inner).collect();
+                    match inp.bip32_derivation.get(&key(*k).public.inner) { Some((fp, path)) if cands.iter().any(|j| *fp == j.fp && *path == j.path) => {}, _ => bad = Some(format!("origin-K{}", k)) }
                 }
                 if inp.tap_internal_key.is_some() || !inp.tap_scripts.is_empty() || !inp.tap_key_origins.is_empty() || inp.tap_merkle_root.is_some() { bad = Some("unexpected-tap-fields".into()); }
             } else if let Descriptor::Tr(tr) = &c.spec.derived {
@@ -1267,6 +1567,19 @@ fn judge_update(out: &mut Out, case: &Case) {
                     }
                 }
             }
+        }
+        // the unchecked updater (PsbtInputExt::update_with_descriptor_unchecked) writes exactly the same
+        // fields and returns the derived descriptor
+        {
+            use miniscript::psbt::PsbtInputExt;
+            let mut raw = case.psbt0.inputs[i].clone();
+            let r2 = raw.update_with_descriptor_unchecked(&c.spec.desc);
+            let bad2 = match r2 {
+                Err(_) => Some("unchecked-update-failed".to_string()),
+                Ok(d) => if r.is_ok() && raw != p.inputs[i] { Some("fields-differ-from-checked-update".into()) }
+                         else if d != c.spec.derived { Some("returned-descriptor-differs".into()) } else { None },
+            };
+            verdict(out, "update-unchecked-agrees", &format!("{}@{}", c.spec.tmpl, c.mode.name()), bad2);
         }
         // updating twice changes nothing
         let once = p.inputs[i].clone();
@@ -1339,8 +1652,11 @@ fn judge_update_outputs(out: &mut Out, case: &Case) {
                     }
                 }
             } else {
-                let want: BTreeMap<secp256k1::PublicKey, (Fingerprint, DerivationPath)> = c.spec.keys.iter().map(|k| (key(*k).public.inner, (key(*k).fp, key(*k).path.clone()))).collect();
-                if o.bip32_derivation != want { bad = Some("bip32_derivation".into()); }
+                let points: BTreeSet<secp256k1::PublicKey> = c.spec.keys.iter().map(|k| key(*k).public.inner).collect();
+                if o.bip32_derivation.len() != points.len() { bad = Some("bip32_derivation-count".into()); }
+                for (pt, (fp, path)) in &o.bip32_derivation {
+                    if !c.spec.keys.iter().map(|j| key(*j)).any(|j| j.public.inner == *pt && j.fp == *fp && j.path == *path) { bad = Some("bip32_derivation".into()); }
+                }
                 if o.tap_internal_key.is_some() || o.tap_tree.is_some() || !o.tap_key_origins.is_empty() { bad = Some("unexpected-tap-fields".into()); }
                 let ok = match c.spec.kind {
                     Kind::Wsh => matches!((&o.witness_script, &o.redeem_script), (Some(ws), None) if ScriptBuf::new_p2wsh(&ws.wscript_hash()) == spk),
@@ -1668,6 +1984,33 @@ fn emit_update_corr(out: &mut Out, rng: &mut Rng, thorough: bool) {
     }
 }
 
+/// Designated relative-lock cases (every tier): each older() descriptor of the hand-written pool
+/// under transaction version 2 AND 1 and under every nSequence variant (exact, bits above the mask,
+/// other unit, too small, disable flag, final).  All go through the normal stream: `C psbtstep`
+/// (the satisfier parameter honours version and sequence independently), `J mode-honoured`, and
+/// `J spend` / `J spendv` (the Lean Script semantics has nSequence and the transaction version).
+fn designated_lock_cases(out: &mut Out, pool: &[Spec], judged: &mut BTreeSet<String>) {
+    let mut rng = Rng(0xC14F);
+    let mut n = 0;
+    for spec in pool.iter().filter(|s| !s.olders.is_empty()) {
+        if n >= 16 { break; }
+        n += 1;
+        let o = spec.olders.iter().cloned().max_by_key(|o| (o & 0xffff, *o)).unwrap();
+        let mut seqs = seq_variants(o); seqs.sort(); seqs.dedup();
+        for version in [2, 1] {
+            for sq in &seqs {
+                if version == 1 && ![o, o | (1 << 16), 0xffff_ffff].contains(sq) { continue; }
+                let case = build_case_with(vec![spec.clone()], &mut rng, &CaseOpts { version: Some(version), seqs: vec![Some(*sq)] });
+                let mut h = progress_ops(&case, 0);
+                h.extend([Op::Fin, Op::FinMall, Op::Extract]);
+                if h.len() > 12 { let cut = h.len() - 12; h.drain(1..1 + cut); }
+                out.count(&format!("designated lock case v{}", version));
+                run_history(out, &case, &h, judged);
+            }
+        }
+    }
+}
+
 /// `finalize_inp_mall_mut(i)` must behave like `finalize_mall_mut` restricted to input i
 fn judge_mall(out: &mut Out, spec: &Spec, rng: &mut Rng) {
     let case = build_case(vec![spec.clone()], rng);
@@ -1680,6 +2023,23 @@ fn judge_mall(out: &mut Out, spec: &Spec, rng: &mut Rng) {
     let bad = if ra.split('@').next() != rb.split('@').next() { Some(format!("finalize_mall_mut={} finalize_inp_mall_mut={}", ra, rb)) }
               else if a.serialize() != b.serialize() { Some("bytes-differ".into()) } else { None };
     verdict(out, "mall-honoured", &format!("{} all-sigs-and-preimages", spec.tmpl), bad);
+    // the four by-value wrappers on the same input (deterministic: this is where the malleable and the
+    // non-malleable mode differ)
+    {
+        let cls = |r: Result<Psbt, (Psbt, Vec<miniscript::psbt::Error>)>| match r { Ok(x) => ("ok".to_string(), x), Err((x, es)) => (format!("err:{}", es.iter().map(err_class).collect::<Vec<_>>().join("+")), x) };
+        let cls1 = |r: Result<Psbt, (Psbt, miniscript::psbt::Error)>| match r { Ok(x) => ("ok".to_string(), x), Err((x, e)) => (format!("err:{}", err_class(&e)), x) };
+        let mut d = p.clone(); let rd = apply(&case, &mut d, &Op::FinInp(0));
+        let checks: Vec<(&str, (String, Psbt), (&String, &Psbt))> = vec![
+            ("finalize", cls(p.clone().finalize(secp())), (&rc, &c)),
+            ("finalize_mall", cls(p.clone().finalize_mall(secp())), (&ra, &a)),
+            ("finalize_inp", cls1(p.clone().finalize_inp(secp(), 0)), (&rd, &d)),
+            ("finalize_inp_mall", cls1(p.clone().finalize_inp_mall(secp(), 0)), (&rb, &b)),
+        ];
+        for (name, (r1, q), (r2, m)) in checks {
+            let bad = if r1 != *r2 { Some(format!("by-value-{}-mut-{}", r1, r2)) } else if q.serialize() != m.serialize() { Some("bytes-differ".into()) } else { None };
+            verdict(out, "byvalue-agrees", &format!("{} all-sigs-and-preimages {}", spec.tmpl, name), bad);
+        }
+    }
     if ra == "ok" {
         let ss = a.inputs[0].final_script_sig.clone().unwrap_or_default();
         let w = a.inputs[0].final_script_witness.clone().unwrap_or_default();
@@ -1771,9 +2131,9 @@ pub fn run(out: &mut Out, thorough: bool, seed: u64) {
     // 1. every descriptor alone: canonical history, update/sighash judges, random histories
     for spec in &pool {
         let case = build_case(vec![spec.clone()], &mut rng);
-        judge_update(out, &case);
-        judge_sighash(out, &case);
-        judge_sighash_types(out, &case);
+        guarded(out, "judge_update", &case.label, |out| judge_update(out, &case));
+        guarded(out, "judge_sighash", &case.label, |out| judge_sighash(out, &case));
+        guarded(out, "judge_sighash_types", &case.label, |out| judge_sighash_types(out, &case));
         let mut h = progress_ops(&case, 0);
         if case.inputs[0].keysig.is_some() && spec.leaves.is_empty() { h.push(Op::KeySig(0, true)); }
         h.extend([Op::FinInp(0), Op::Fin, Op::Extract]);
@@ -1784,7 +2144,7 @@ pub fn run(out: &mut Out, thorough: bool, seed: u64) {
             let h = random_history(&case, &mut rng);
             run_history(out, &case, &h, &mut judged);
         }
-        judge_order(out, &case, &mut rng);
+        guarded(out, "judge_order", &case.label, |out| judge_order(out, &case, &mut rng));
     }
     // 2. multi-input PSBTs
     let n_multi = if thorough { 12000 } else { 1500 };
@@ -1801,13 +2161,16 @@ pub fn run(out: &mut Out, thorough: bool, seed: u64) {
         out.count(&format!("case inputs={}", n));
         let h = random_history(&case, &mut rng);
         run_history(out, &case, &h, &mut judged);
-        if rng.below(3) == 0 { judge_order(out, &case, &mut rng); }
-        if rng.below(6) == 0 { judge_update(out, &case); judge_sighash(out, &case); }
-        if rng.below(12) == 0 { judge_sighash_types(out, &case); }
+        if rng.below(3) == 0 { guarded(out, "judge_order", &case.label, |out| judge_order(out, &case, &mut rng)); }
+        if rng.below(6) == 0 {
+            guarded(out, "judge_update", &case.label, |out| judge_update(out, &case));
+            guarded(out, "judge_sighash", &case.label, |out| judge_sighash(out, &case));
+        }
+        if rng.below(12) == 0 { guarded(out, "judge_sighash_types", &case.label, |out| judge_sighash_types(out, &case)); }
     }
     // 3. allow_mall is honoured by every entry point (malleable scripts: outside the sane pool)
     let mut fixed = Rng(0xC14A);
-    for s in mall.iter().chain(pool.iter().take(12)) { judge_mall(out, s, &mut fixed); }
+    for s in mall.iter().chain(pool.iter().take(12)) { guarded(out, "judge_mall", &s.tmpl, |out| judge_mall(out, s, &mut fixed)); }
     // 3b. OBSERVATION: signatures contradicting the input's sighash_type field (see props.d "observations")
     {
         let mut seen = BTreeSet::new();
@@ -1819,12 +2182,14 @@ pub fn run(out: &mut Out, thorough: bool, seed: u64) {
     {
         let mut fixed = Rng(0xC14D);
         for t in ["tr(K0,pkh(K1))", "tr(K0,{pkh(K1),pk(K2)})", "tr(K0,{and_v(v:pkh(K1),pk(K2)),pkh(K3)})"] {
-            if let Some(s) = spec_from_tmpl(t) { judge_rawpkh(out, &s, &mut fixed); }
+            if let Some(s) = spec_from_tmpl(t) { guarded(out, "judge_rawpkh", &s.tmpl, |out| judge_rawpkh(out, &s, &mut fixed)); }
         }
-        for s in pool.iter().filter(|s| s.tmpl.contains("pkh(") && !matches!(s.kind, Kind::Pkh | Kind::Wpkh | Kind::ShWpkh)) { judge_rawpkh(out, s, &mut fixed); }
+        for s in pool.iter().filter(|s| s.tmpl.contains("pkh(") && !matches!(s.kind, Kind::Pkh | Kind::Wpkh | Kind::ShWpkh)) { guarded(out, "judge_rawpkh", &s.tmpl, |out| judge_rawpkh(out, s, &mut fixed)); }
     }
+    // 3e. relative locks: transaction version x nSequence variants
+    guarded(out, "designated_lock_cases", "-", |out| designated_lock_cases(out, &pool, &mut judged));
     // 3d. updater, byte level, against the descriptor model
-    emit_update_corr(out, &mut Rng(seed ^ 0xC14E), thorough);
+    guarded(out, "emit_update_corr", "-", |out| emit_update_corr(out, &mut Rng(seed ^ 0xC14E), thorough));
     // 4. adversarial PSBTs
     judge_nopanic(out, &pool, &mut Rng(0xC14B));
     let _ = std::panic::take_hook();
